@@ -228,31 +228,42 @@ WExit(s) ==
   /\ UNCHANGED <<cfg, loopVars, nodeVars, tails, cmd, sigd, flagVars, stopVars,
                  execs, early, lateStart, lateFresh, created, pastCreate, hwm, rwait, stopDone>>
 
-\* the switch after execNode, done count, repeat decision (scheduler.go:170-222)
+\* the switch after execNode, done count, repeat decision (scheduler.go worker, after execNode)
 WPost(s) ==
   /\ wpc[s] = "worker.post"
   /\ LET failed == res[s] # "ok"
          st     == status[s] IN
      IF failed /\ st \notin {FIN, CANC} /\ ~timedOut /\ ~canceled /\ cfg.rlimit[s] > retry[s]
-       THEN /\ retry' = [retry EXCEPT ![s] = @ + 1]                \* :188-197 retry: sleep with status running
+       THEN /\ retry' = [retry EXCEPT ![s] = @ + 1]                \* retry: sleep with status running
             /\ wpc' = [wpc EXCEPT ![s] = "worker.retrywake"]
             /\ rwait' = [rwait EXCEPT ![s] = TRUE]
             /\ UNCHANGED <<status, doneCnt, lastErr, tails>>
        ELSE LET st1 == IF ~failed \/ st \in {FIN, CANC} THEN st
                        ELSE IF timedOut THEN CANC
-                       ELSE IF canceled THEN st ELSE FAIL
+                       ELSE IF canceled THEN CANC                  \* failed after the run was canceled: canceled
+                       ELSE FAIL
                 status1 == [status EXCEPT ![s] = st1]
                 again == cfg.repeat[s] /\ (~failed \/ cfg.contF[s]) /\ ~canceled
             IN /\ lastErr' = (lastErr \/ (failed /\ st \notin {FIN, CANC}))
                /\ doneCnt' = [doneCnt EXCEPT ![s] = IF st1 # CANC THEN @ + 1 ELSE @]
                /\ UNCHANGED <<retry, rwait>>
-               /\ IF again                                         \* :210-217 repeat: sleep, loop condition again
-                    THEN /\ wpc' = [wpc EXCEPT ![s] = "worker.exec"] /\ status' = status1 /\ UNCHANGED tails
-                  ELSE IF failed /\ cfg.doneChan                   \* :218-221 done <- node; return
+               /\ IF again                                         \* repeat: running again (also after a failed iteration), sleep
+                    THEN /\ wpc' = [wpc EXCEPT ![s] = "worker.repeatwake"]
+                         /\ status' = [status1 EXCEPT ![s] = IF @ = FAIL THEN RUN ELSE @] /\ UNCHANGED tails
+                  ELSE IF failed /\ cfg.doneChan                   \* done <- node; return
                     THEN /\ status' = status1 /\ ToTail(s)
                   ELSE /\ status' = FinishSection(s, status1) /\ ToTail(s)
   /\ UNCHANGED <<cfg, loopVars, cmd, alive, sigd, res, canceled, timedOut, stopVars,
                  execs, early, lateStart, lateFresh, created, pastCreate, hwm, lastOK, stopDone>>
+
+\* end of the repeat interval: the loop condition is evaluated again (a stop request may have arrived meanwhile)
+WRepeatWake(s) ==
+  /\ wpc[s] = "worker.repeatwake"
+  /\ IF canceled
+       THEN /\ status' = [status EXCEPT ![s] = IF @ = RUN THEN (IF lastOK[s] THEN FIN ELSE FAIL) ELSE @]   \* "finish the node"
+            /\ ToTail(s)
+       ELSE /\ wpc' = [wpc EXCEPT ![s] = "worker.exec"] /\ UNCHANGED <<status, tails>>
+  /\ UNCHANGED <<cfg, loopVars, retry, doneCnt, cmd, alive, sigd, res, flagVars, stopVars, histVars>>
 
 \* end of the retry interval (scheduler.go:195-199), then the rest of the loop body
 WRetryWake(s) ==
@@ -306,7 +317,7 @@ TFire == /\ cfg.timeout /\ ~timedOut /\ lpc # "returned"
 
 -----------------------------------------------------------------------------
 Loop      == LStart \/ LTop \/ LVisit \/ LLaunch \/ LWgWait \/ LHandler \/ LHCreated \/ LHExit
-WorkerCtl(s) == WBegin(s) \/ WExec(s) \/ WStart(s) \/ WPost(s) \/ WRetryWake(s) \/ WTail(s)
+WorkerCtl(s) == WBegin(s) \/ WExec(s) \/ WStart(s) \/ WPost(s) \/ WRetryWake(s) \/ WRepeatWake(s) \/ WTail(s)
 Worker(s) == WorkerCtl(s) \/ WExit(s)
 Stop      == SCall \/ SKillCall \/ SFlagged \/ SNode
 Next      == Loop \/ (\E s \in Steps : Worker(s)) \/ Stop \/ TFire
@@ -321,7 +332,9 @@ FairSpec == Spec /\ WF_vars(Loop) /\ WF_vars(Stop) /\ WF_vars(TFire)
 -----------------------------------------------------------------------------
 (* ---- properties ---- *)
 Returned == lpc = "returned"
-RunNow   == RunStatus(status, canceled, lastErr)
+\* Scheduler.Status: once the handlers have been selected the outcome is frozen (a stop request that arrives while the
+\* handlers run does not change it)
+RunNow   == IF lpc \in {"handler", "h.created", "h.proc", "returned"} THEN hselRun ELSE RunStatus(status, canceled, lastErr)
 RepExtra(s) == IF cfg.repeat[s] THEN 1 ELSE 0
 
 TypeOK == /\ \A s \in Steps : status[s] \in {NS, RUN, FAIL, CANC, FIN, SKIP}
@@ -343,6 +356,10 @@ C04_Outcome == Returned /\ ~timedOut =>
                  IF canceled THEN C04_OutcomeStop(Steps, status, RunNow, stopDone)
                              ELSE C04_OutcomeNoStop(Steps, status, RunNow)
 C04_HandlerLog == Returned /\ ~timedOut => C04_Handlers(cfg.handlers, RunNow, hlog)
+C04_ReturnAgrees == Returned /\ ~timedOut => (RunNow = FIN => ~lastErr) /\ (RunNow = FAIL => lastErr)   \* return value of Schedule vs status
+\* C08 (labels of a finished run): no step is left "running", and a step labelled finished did not fail its last execution
+C08_FinalLabels == Returned => \A s \in Steps : /\ status[s] # RUN
+                                                 /\ (status[s] = FIN /\ execs[s] >= 1 /\ ~cfg.dry => lastOK[s])
 C04_NoRunningLeft == Returned => \A s \in Steps : status[s] # RUN
 
 \* when the KILL escalation round of Signal is over, every process still alive (repeat steps excepted) has been sent SIGKILL
